@@ -1026,7 +1026,7 @@ class Interp(object):
             cur.arr = smt.fresh_arr(nm)
             cur.len = smt.fresh_int(nm + '_len')
             self.ctx.assume(cur.len >= 0)
-        elif isinstance(cur, (bi.SDict, bi.ADict, bi.ACounter, bi.ASet)):
+        elif isinstance(cur, (bi.SDict, bi.ADict, bi.ACounter, bi.ASet, bi.SDeque)):
             cur.havoc(self, nm)
         elif isinstance(cur, PyList):
             cur.go_symbolic()
